@@ -32,6 +32,49 @@ def sx(x):
 def ctx_case(cid, sink, trees):
     return '(ctx-case %s (sink %d) (tree%s))' % (cid, sink, ''.join(' ' + sx(t) for t in trees))
 
+def hctx_case(cid, ops):
+    return '(hctx-case %s (ops%s))' % (cid, ''.join(' ' + sx(o) for o in ops))
+
+def random_hctx_ops(r, n, mutating=True):
+    """a history over the whole Context API on four registers, two sink slots, two local slots. A saved local
+    context is restored only into the register it was taken from, and only while that register has not been
+    overwritten (anything else can tie a parent chain into a cycle: API misuse, not generated)."""
+    ops = []
+    probe = 0
+    owner = {0: None, 1: None}            # local slot -> register it was taken from (still valid)
+    def wrote(i):
+        for l in owner:
+            if owner[l] == i: owner[l] = None
+    ops.append(['new', 0, r.choice([0, 0, 1, '-'])])
+    for _ in range(n):
+        k = r.below(20 if mutating else 14)
+        i, j = r.below(4), r.below(4)
+        if k == 0: ops.append(['new', i, r.choice([0, 1, '-'])]); wrote(i)
+        elif k in (1, 2): ops.append(['clone', i, j]); wrote(j)
+        elif k in (3, 4): ops.append(['pushed', i, j, 1 + r.below(9)]); wrote(j)
+        elif k == 5: ops.append(['push', i, 1 + r.below(9)]); wrote(i)
+        elif k == 6: ops.append(['locked', i, r.choice(['T', 'F'])]); wrote(i)
+        elif k == 7: ops.append(['nosink', i, j]); wrote(j)
+        elif k == 8: ops.append(['nolocal', i, j]); wrote(j)
+        elif k in (9, 10, 11):
+            probe += 1; ops.append(['send', i, probe])
+        elif k in (12, 13):
+            probe += 1; ops.append(['apply', i, probe])
+        elif k in (14, 15): ops.append(['takesink', i, r.below(2)])
+        elif k in (16, 17): ops.append(['replsink', i, r.below(2)])
+        elif k == 18:
+            l = r.below(2); ops.append(['takelocal', i, l]); owner[l] = i
+        else:
+            cand = [l for l in owner if owner[l] is not None]
+            if cand:
+                l = r.choice(cand); ops.append(['repllocal', owner[l], l]); owner[l] = None
+            else:
+                probe += 1; ops.append(['send', i, probe])
+    for i in range(4):
+        probe += 1; ops.append(['send', i, probe])
+        probe += 1; ops.append(['apply', i, probe])
+    return ops
+
 def random_ctree(r, depth, counter):
     """counter: [next probe id, next tag]"""
     if depth <= 0 or r.chance(1, 4):
